@@ -251,6 +251,9 @@ def check_infogain(B, ref, est, bins=41):
         dup = not (strictly_increasing(ref) and strictly_increasing(est))
         if bins >= 2 and not dup:
             return finding('beat.information_gain', 'finite for strictly increasing sequences', [ref, est, bins], v, 'nan')
+        if bins >= 2 and valid(ref) and valid(est):
+            # duplicated beat times are valid input (validate only rejects decreasing times): known finding C01-infogain-duplicate-beats-nan
+            return finding('beat.information_gain', 'score in [0, 1] and finite (duplicated beat times)', [ref, est, bins], 'nan', 'nan')
         return None
     if not (-TOL <= v <= 1 + TOL):
         return finding('beat.information_gain', 'score in [0, 1]', [ref, est, bins], v, 'out of range')
